@@ -27,3 +27,31 @@ fn k271_field_axioms() {
     assert_eq!(K271::TWO_ADIC_ROOT_OF_UNITY * K271::TWO_ADIC_ROOT_OF_UNITY, K271::one());
     let _ = UnitA(K271(1));
 }
+
+use crate::scenario::*;
+use ark_bulletproofs::r1cs::{R1CSError, R1CSProof};
+use ark_bulletproofs::verif_hooks::InnerProductProof;
+use ark_bulletproofs::BulletproofGens;
+
+/// Honest prove/verify round trip on the unit group for 0..=4 gates, plus
+/// encode/decode and rejection of a tampered proof.
+#[test]
+fn honest_round_trip_unit_group() {
+    for g in 0..=4usize {
+        let cap = g.next_power_of_two().max(1);
+        let bp = BulletproofGens::<UnitA>::new(cap, 1);
+        let (proof, com) = honest_proof(g, &bp).expect("prove");
+        verify_proof(g, &proof, com, &bp).expect("honest proof verifies");
+        let bytes = proof.to_bytes().unwrap();
+        let k = if g <= 1 { 0 } else { cap.trailing_zeros() as usize };
+        assert_eq!(bytes.len(), 11 * POINT_BYTES + 5 * SCALAR_BYTES + 16 + 2 * k * POINT_BYTES);
+        let back = R1CSProof::<UnitA>::from_bytes(&bytes).unwrap();
+        verify_proof(g, &back, com, &bp).expect("decoded proof verifies");
+        // tamper t_x
+        let (pts, mut sc, ipp) = proof.verif_parts();
+        sc[0] += K271(1);
+        let (l, r, a, b) = ipp.verif_parts();
+        let bad = R1CSProof::verif_from_parts(pts, sc, InnerProductProof::verif_from_parts(l.to_vec(), r.to_vec(), a, b));
+        assert!(matches!(verify_proof(g, &bad, com, &bp), Err(R1CSError::VerificationError)));
+    }
+}
